@@ -15,7 +15,7 @@ from __future__ import annotations
 
 import ast
 
-from engine.cfg import call_name, cfg_of
+from engine.cfg import call_name, cfg_of, expand_aliases
 from engine.errors import AnalysisError
 from engine.repo import walk_no_nested
 from engine.util import dotted, unparse
@@ -182,80 +182,21 @@ def run(ctx):  # noqa: C901, PLR0912, PLR0915
                witness={'unit': u.unit(em[0].args[0]) if em and em[0].args else None})
     # the send loop compares with time.time()
     rs = repo.func(f'{NT}.NetworkingThread._run_send')
-    ctx.ob('C15.R1', 'send loop clock', 'send_time <= time.time()' in unparse(rs.node),
-           '_run_send releases a datagram when its send_time <= time.time()', fi=rs)
+    # (the comparison itself is decided below, 'datagrams are sent only when due', as a path condition)
+    clock = [c for c in ast.walk(rs.node) if isinstance(c, ast.Compare) and 'send_time' in unparse(c) and
+             'time.time()' in unparse(c)]
+    ctx.ob('C15.R1', 'send loop clock', bool(clock),
+           '_run_send compares the send_time of the queue head with time.time()', fi=rs)
 
     # ------------------------------------------------------------------ R2
-    assigns = {}
-    for n in walk_no_nested(fn):
-        if isinstance(n, ast.Assign) and isinstance(n.targets[0], ast.Name):
-            assigns.setdefault(n.targets[0].id, []).append(n)
     loops = [n for n in walk_no_nested(fn) if isinstance(n, ast.For)]
     if len(loops) != 1:
         raise AnalysisError('C15.R2: expected exactly one for loop in _repeated_enqueue_msg')
     loop = loops[0]
-    param = next((a.arg for a in fn.args.args if 'param' in a.arg), None)
+    param = next((a.arg for a in fn.args.args if 'param' in a.arg), None) or \
+        (fn.args.args[2].arg if len(fn.args.args) >= 3 else None)
     if param is None:
         raise AnalysisError('C15.R2: parameter with the repeat parameters not found')
-
-    def first_assign(name):
-        xs = [a for a in assigns.get(name, []) if not _inside(a, loop)]
-        return xs[0].value if xs else None
-    # initial delay
-    init_names = [nm for nm, xs in assigns.items() for a in xs if isinstance(a.value, ast.Call)
-                  and call_name(a.value) == 'randint']
-    ok = False
-    if init_names:
-        v = first_assign(init_names[0])
-        ok = isinstance(v, ast.Call) and len(v.args) == 2 and isinstance(v.args[0], ast.Constant) and \
-            v.args[0].value == 0 and unparse(v.args[1]) == f'{param}.max_initial_delay_ms'
-    ctx.ob('C15.R2', 'initial delay draw', ok,
-           f'initial delay is randint(0, {param}.max_initial_delay_ms)', fi=fi, witness=init_names)
-    send_names = [nm for nm, xs in assigns.items() for a in xs if 'time.time()' in unparse(a.value)]
-    ok = False
-    if send_names and init_names:
-        v = first_assign(send_names[0])
-        ok = isinstance(v, ast.BinOp) and isinstance(v.op, ast.Add) and unparse(v.left) == 'time.time()' and \
-            unparse(v.right).replace(' ', '') in (f'{init_names[0]}/1000.0', f'{init_names[0]}/1000')
-    ctx.ob('C15.R2', 'first send time', ok, 'first send time is time.time() + initial_delay_ms / 1000', fi=fi)
-    gap_names = [nm for nm, xs in assigns.items() for a in xs if 'randrange' in unparse(a.value)]
-    ok = False
-    if gap_names:
-        v = first_assign(gap_names[0])
-        rr = [c for c in ast.walk(v) if isinstance(c, ast.Call) and call_name(c) == 'randrange']
-        ok = bool(rr) and [unparse(a) for a in rr[0].args] == [f'{param}.min_delay_ms', f'{param}.max_delay_ms'] and \
-            isinstance(v, ast.BinOp) and isinstance(v.op, ast.Div) and isinstance(v.right, ast.Constant) and \
-            v.right.value in (1000, 1000.0)
-    ctx.ob('C15.R2', 'first gap draw', ok,
-           f'first gap is randrange({param}.min_delay_ms, {param}.max_delay_ms) / 1000', fi=fi, witness=gap_names)
-    if not (gap_names and send_names):
-        raise AnalysisError('C15.R2: gap / send time variables not identifiable')
-    gap, snd = gap_names[0], send_names[0]
-    body = loop.body
-    idx_add = next((i for i, s in enumerate(body) if isinstance(s, ast.AugAssign) and isinstance(s.op, ast.Add)
-                    and unparse(s.target) == snd and unparse(s.value) == gap), None)
-    idx_put = next((i for i, s in enumerate(body) if any(call_name(c) == 'put' for c in ast.walk(s)
-                                                         if isinstance(c, ast.Call))), None)
-    idx_dbl = next((i for i, s in enumerate(body) if isinstance(s, ast.Assign) and unparse(s.targets[0]) == gap), None)
-    ok = None not in (idx_add, idx_put, idx_dbl) and idx_add < idx_put < idx_dbl and len(body) == 3
-    ctx.ob('C15.R2', 'loop order', ok,
-           'each iteration: add the gap to the send time, queue the datagram, then compute the next gap', fi=fi,
-           witness={'add': idx_add, 'put': idx_put, 'double': idx_dbl, 'statements': len(body)})
-    ok = False
-    if idx_dbl is not None:
-        v = body[idx_dbl].value
-        if isinstance(v, ast.Call) and call_name(v) == 'min' and len(v.args) == 2:
-            a0, a1 = v.args
-            dbl = unparse(a0).replace(' ', '') in (f'{gap}*2', f'2*{gap}')
-            cap = f'{param}.upper_delay_ms' in unparse(a1)
-            ok = dbl and cap
-    ctx.ob('C15.R2', 'next gap', ok, f'next gap is min(2 * gap, {param}.upper_delay_ms converted to seconds)', fi=fi,
-           witness=unparse(body[idx_dbl]) if idx_dbl is not None else None)
-    # the queued message of the loop uses the updated send time
-    ok = idx_put is not None and snd in unparse(body[idx_put])
-    ctx.ob('C15.R2', 'queued time is the accumulated one', ok, 'the datagram is queued with the accumulated send time',
-           fi=fi)
-
     # interval evaluation of the whole function for both parameter sets (sound for every outcome of the draws)
     mod = repo.module(NT)
     psets = {}
@@ -270,6 +211,12 @@ def run(ctx):  # noqa: C901, PLR0912, PLR0915
             if len(vals) == len(fields):
                 psets[unparse(n.targets[0])] = dict(zip(fields, vals))
     ctx.floor('C15.R2', len(psets), 2, 'parameter sets for the interval evaluation')
+    # synthetic parameter sets with pairwise distinct values: a literal or a wrong field in place of the right field shows up
+    # as a schedule outside the envelope (the shipped sets alone cannot tell 50 from max_initial_delay_ms = 50)
+    synth = {'synthetic A': (70, 3, 30, 110, 150), 'synthetic B': (13, 5, 7, 11, 400), 'synthetic C': (900, 1, 200, 201, 333)}
+    for k, vals in synth.items():
+        if len(vals) == len(fields):
+            psets[k] = dict(zip(fields, vals))
     for pname, pvals in sorted(psets.items()):
         try:
             sends = interval_eval(fn, param, pvals)
@@ -282,8 +229,9 @@ def run(ctx):  # noqa: C901, PLR0912, PLR0915
         # gap_i interval is not simply the difference of absolute intervals (they are correlated); the evaluator therefore
         # also returns the gap interval it added: sends[i][2]
         gl = [s_[2] for s_ in sends[1:]]
-        ok = len(sends) == 1 + pvals['repeat']
-        ok = ok and first[0] >= -eps and first[1] <= pvals['max_initial_delay_ms'] / 1000 + eps
+        ctx.ob('C15.R3', f'datagram count {pname}', len(sends) == 1 + pvals['repeat'],
+               f'{pname}: {len(sends)} datagrams are queued for repeat={pvals["repeat"]} (required: 1 + repeat)', fi=fi)
+        ok = first[0] >= -eps and first[1] <= pvals['max_initial_delay_ms'] / 1000 + eps
         if gl:
             ok = ok and gl[0][0] >= pvals['min_delay_ms'] / 1000 - eps and gl[0][1] <= pvals['max_delay_ms'] / 1000 + eps
             for i in range(1, len(gl)):
@@ -297,15 +245,14 @@ def run(ctx):  # noqa: C901, PLR0912, PLR0915
                witness={'first_send_offset_s': first[:2], 'gaps_s': gl})
 
     # ------------------------------------------------------------------ R3
+    # the number of queued datagrams is decided by the interval evaluation above (len(sends) == 1 + repeat for every parameter
+    # set, shipped and synthetic); here: no put outside this function's single series
     in_loop = [n for n, c in puts if any(l is loop for l in n.loops)]
     before = [n for n, c in puts if not n.loops]
-    it = loop.iter
-    ok = len(in_loop) == 1 and len(before) == 1 and isinstance(it, ast.Call) and call_name(it) == 'range' and \
-        len(it.args) == 1 and unparse(it.args[0]) == f'{param}.repeat' and len(puts) == 2 and \
-        all(g.dominates(before[0], n) for n in in_loop)
-    ctx.ob('C15.R3', 'count', ok, f'one datagram is queued before the loop and one per iteration of '
-           f'range({param}.repeat): 1 + repeat transmissions', fi=fi,
-           witness={'puts_before_loop': len(before), 'puts_in_loop': len(in_loop), 'loop': unparse(it)})
+    ok = len(in_loop) >= 1 and len(before) >= 1 and all(g.dominates(before[0], n) for n in in_loop)
+    ctx.ob('C15.R3', 'count', ok, 'one datagram is queued before the loop and the repetitions inside it (their number is '
+           'checked by the interval evaluation: 1 + repeat)', fi=fi,
+           witness={'puts_before_loop': len(before), 'puts_in_loop': len(in_loop), 'loop': unparse(loop.iter)})
     # quit check only drops, never partially queues
     rets = [n for n in g.nodes if n.kind == 'return']
     ok = all(not any(g.dominates(p, r) for p, _ in puts) for r in rets)
@@ -324,7 +271,7 @@ def run(ctx):  # noqa: C901, PLR0912, PLR0915
     ctx.floor('C15.R3', n_sets, 2, 'repeat parameter sets')
 
     # ------------------------------------------------------------------ R4
-    ao = repo.func(f'{NT}.NetworkingThread.add_outbound_message')
+    ao = expand_aliases(repo.func(f'{NT}.NetworkingThread.add_outbound_message'))
     g2 = cfg_of(ao)
     regs = [n for n, c in g2.nodes_calling('appendleft') + g2.nodes_calling('append')
             if '_known_message_ids' in unparse(c.func) and 'MessageID' in unparse(c)]
@@ -351,7 +298,12 @@ def run(ctx):  # noqa: C901, PLR0912, PLR0915
     gets = [n for n, c in gs.nodes_calling('get') if 'self._send_queue' in unparse(c.func)]
     snd = gs.nodes_calling('_send_msg')
     due = 'self._send_queue.queue[0].send_time <= time.time()'
-    ok = bool(gets) and bool(snd) and all((due, True) in gs.facts_at(n) for n in gets + [x for x, _ in snd])
+    from engine.pathcond import worlds_of
+    w = worlds_of(gs, extra_atoms=(due,))
+    ok = bool(gets) and bool(snd)
+    for n in gets + [x for x, _ in snd]:
+        imp, _w = w.implies(w.cond(n), due)   # guard clause, else branch, `>` or `<=`: all the same truth table
+        ok = ok and imp
     ctx.ob('C15.R2', 'datagrams are sent only when due', ok,
            '_run_send takes a datagram from the queue and sends it only on the true edge of `send_time <= time.time()`'
            if ok else
@@ -368,37 +320,50 @@ def run(ctx):  # noqa: C901, PLR0912, PLR0915
            where=NT, witness=direct)
 
 
-def interval_eval(fn, param, pvals):
+OPAQUE = object()
+
+
+def interval_eval(fn, param, pvals):  # noqa: C901
     """Interval abstract interpretation of _repeated_enqueue_msg.  Values are (lo, hi) floats; time.time() is the
-    origin [0, 0].  Returns the list of (lo, hi, gap interval) of the send times handed to the queue."""
+    origin [0, 0]; values that are not numbers (the queue, the message) are opaque.  Returns the list of
+    (lo, hi, gap interval) of the send times handed to the queue, gap = what was added to the queued variable since the
+    previous put (tracked separately because the absolute intervals are correlated)."""
     env = {}
     sends = []
-    last_gap = [None]
+    acc = {}   # variable -> interval added to it since the last put
 
     def ev(e):  # noqa: C901, PLR0911
-        if isinstance(e, ast.Constant) and isinstance(e.value, (int, float)):
+        if isinstance(e, ast.Constant) and isinstance(e.value, (int, float)) and not isinstance(e.value, bool):
             return (float(e.value), float(e.value))
         if isinstance(e, ast.Name):
-            if e.id in env:
+            if e.id in env and env[e.id] is not OPAQUE:
                 return env[e.id]
-            raise AnalysisError(f'interval: unbound name {e.id}')
+            raise AnalysisError(f'interval: {e.id} is not a number here')
         if isinstance(e, ast.Attribute) and isinstance(e.value, ast.Name) and e.value.id == param and e.attr in pvals:
             return (float(pvals[e.attr]), float(pvals[e.attr]))
         if isinstance(e, ast.Call):
             full = unparse(e.func)
-            if full == 'time.time':
+            if full in ('time.time',):
                 return (0.0, 0.0)
-            if full == 'random.randint':
+            if full in ('random.randint', 'randint'):
                 a, b = ev(e.args[0]), ev(e.args[1])
                 return (a[0], b[1])
-            if full == 'random.randrange':
+            if full in ('random.randrange', 'randrange') and len(e.args) == 2:
                 a, b = ev(e.args[0]), ev(e.args[1])
                 return (a[0], b[1])  # upper bound exclusive: over-approximated by the closed interval
-            if full in ('min', 'max'):
+            if full in ('random.uniform', 'uniform'):
+                a, b = ev(e.args[0]), ev(e.args[1])
+                return (a[0], b[1])
+            if full in ('min', 'max') and len(e.args) >= 2:
                 vs = [ev(a) for a in e.args]
                 f = min if full == 'min' else max
                 return (f(v[0] for v in vs), f(v[1] for v in vs))
+            if full in ('float', 'int') and len(e.args) == 1:
+                return ev(e.args[0])
             raise AnalysisError(f'interval: call {full} not modelled')
+        if isinstance(e, ast.UnaryOp) and isinstance(e.op, ast.USub):
+            v = ev(e.operand)
+            return (-v[1], -v[0])
         if isinstance(e, ast.BinOp):
             l, r = ev(e.left), ev(e.right)
             if isinstance(e.op, ast.Add):
@@ -415,35 +380,72 @@ def interval_eval(fn, param, pvals):
                 return (min(c), max(c))
         raise AnalysisError(f'interval: expression {unparse(e)[:50]} not modelled')
 
-    def run(stmts):
+    def add(iv1, iv2):
+        return (iv1[0] + iv2[0], iv1[1] + iv2[1])
+
+    def increment_of(target, value):
+        """value == target + X or X + target -> X (ast), else None"""
+        if isinstance(value, ast.BinOp) and isinstance(value.op, ast.Add):
+            if isinstance(value.left, ast.Name) and value.left.id == target:
+                return value.right
+            if isinstance(value.right, ast.Name) and value.right.id == target:
+                return value.left
+        return None
+
+    def count(it):
+        args = [ev(a) for a in it.args]
+        if any(a[0] != a[1] for a in args):
+            raise AnalysisError('interval: loop bounds are not constants')
+        return list(range(*[int(a[0]) for a in args]))
+
+    def run(stmts):  # noqa: C901, PLR0912
         for st in stmts:
-            if isinstance(st, ast.Expr) and isinstance(st.value, ast.Constant):
+            if isinstance(st, (ast.Pass,)) or (isinstance(st, ast.Expr) and isinstance(st.value, ast.Constant)):
                 continue
             if isinstance(st, ast.If):
-                if 'is_set()' in unparse(st.test):
+                if 'is_set()' in unparse(st.test) and all(isinstance(x, (ast.Return, ast.Expr)) for x in st.body) \
+                        and not st.orelse:
                     continue  # shutdown guard: drops the message before anything is queued
                 raise AnalysisError(f'interval: condition {unparse(st.test)[:40]} not modelled')
+            if isinstance(st, ast.AnnAssign) and isinstance(st.target, ast.Name) and st.value is not None:
+                st = ast.Assign(targets=[st.target], value=st.value)
             if isinstance(st, ast.Assign) and len(st.targets) == 1 and isinstance(st.targets[0], ast.Name):
-                env[st.targets[0].id] = ev(st.value)
+                name = st.targets[0].id
+                inc = increment_of(name, st.value)
+                try:
+                    val = ev(st.value)
+                except AnalysisError:
+                    val = OPAQUE
+                if inc is not None and val is not OPAQUE:
+                    acc[name] = add(acc.get(name, (0.0, 0.0)), ev(inc))
+                else:
+                    acc.pop(name, None)
+                env[name] = val
                 continue
             if isinstance(st, ast.AugAssign) and isinstance(st.target, ast.Name) and isinstance(st.op, ast.Add):
                 inc = ev(st.value)
-                cur = env[st.target.id]
-                env[st.target.id] = (cur[0] + inc[0], cur[1] + inc[1])
-                last_gap[0] = inc
+                env[st.target.id] = add(env[st.target.id], inc)
+                acc[st.target.id] = add(acc.get(st.target.id, (0.0, 0.0)), inc)
                 continue
-            if isinstance(st, ast.Expr) and isinstance(st.value, ast.Call) and call_name(st.value) == 'put':
+            if isinstance(st, ast.Expr) and isinstance(st.value, ast.Call) and call_name(st.value) in ('put', 'put_nowait'):
                 em = [x for x in ast.walk(st.value) if isinstance(x, ast.Call) and call_name(x) == '_EnqueuedMessage']
-                if not em:
-                    raise AnalysisError('interval: put without _EnqueuedMessage')
-                t = ev(em[0].args[0])
-                sends.append((t[0], t[1], last_gap[0]))
+                if not em or not em[0].args:
+                    raise AnalysisError('interval: put without _EnqueuedMessage(send_time, ...)')
+                targ = em[0].args[0]
+                t = ev(targ)
+                if sends:
+                    if isinstance(targ, ast.Name) and targ.id in acc:
+                        gap = acc[targ.id]
+                    else:
+                        gap = (t[0] - sends[-1][1], t[1] - sends[-1][0])  # uncorrelated over-approximation
+                else:
+                    gap = None
+                if isinstance(targ, ast.Name):
+                    acc[targ.id] = (0.0, 0.0)
+                sends.append((t[0], t[1], gap))
                 continue
-            if isinstance(st, ast.For) and isinstance(st.iter, ast.Call) and call_name(st.iter) == 'range' and len(st.iter.args) == 1:
-                n = ev(st.iter.args[0])
-                if n[0] != n[1]:
-                    raise AnalysisError('interval: loop count is not a constant')
-                for i in range(int(n[0])):
+            if isinstance(st, ast.For) and isinstance(st.iter, ast.Call) and call_name(st.iter) == 'range' and not st.orelse:
+                for i in count(st.iter):
                     if isinstance(st.target, ast.Name):
                         env[st.target.id] = (float(i), float(i))
                     run(st.body)
